@@ -35,6 +35,8 @@ def units(tier, seed):
         {"sid": "basic", "family": "blocks2", "size": 4 if q else 5, "donor": ("blocks2", 4), "max_slices": 30 if q else 60},
         {"sid": "basic", "family": "links", "size": 4 if q else 5, "donor": ("links", 3), "max_slices": 24 if q else 50},
         # three and more adjacent text nodes that a merged mark step fuses at once
+        # a merged mark step that spans a paragraph and a code block (marks: "")
+        {"sid": "basic", "family": "pcode", "size": 6 if q else 7, "donor": ("pcode", 3), "max_slices": 6 if q else 12},
         {"sid": "basic", "family": "marks3", "size": 5 if q else 6, "donor": ("marks3", 3), "max_slices": 8 if q else 16},
     ]
     extra = [
